@@ -42,6 +42,7 @@ not support array ranges.
 
 '''
 
+from psyclone.core import SymbolicMaths
 from psyclone.errors import LazyString
 from psyclone.psyGen import Transformation
 from psyclone.psyir.nodes import (
@@ -144,7 +145,8 @@ class ArrayAssignment2LoopsTrans(Transformation):
                         # If they iterate over the same bounds we just need a
                         # reference to the iteration index
                         index_expr = Reference(loop_variable_symbol)
-                    else:
+                    elif SymbolicMaths.get().equal(range_to_replace.step,
+                                                   lhs_range.step):
                         # If we can not prove that both ranges iterate over the
                         # exact same bounds we need to provide an offset like:
                         # array2(idx1 + (lbound_array2 - lbound_array1)
@@ -156,6 +158,25 @@ class ArrayAssignment2LoopsTrans(Transformation):
                                     BinaryOperation.Operator.ADD,
                                     Reference(loop_variable_symbol),
                                     offset)
+                    else:
+                        # The strides differ (or are not known to be the
+                        # same): use element number (idx - lhs_start)/lhs_step
+                        # of this range:
+                        # array2(start2 + (idx1 - start1) / step1 * step2)
+                        count = BinaryOperation.create(
+                                    BinaryOperation.Operator.DIV,
+                                    BinaryOperation.create(
+                                        BinaryOperation.Operator.SUB,
+                                        Reference(loop_variable_symbol),
+                                        lhs_range.start.copy()),
+                                    lhs_range.step.copy())
+                        index_expr = BinaryOperation.create(
+                                    BinaryOperation.Operator.ADD,
+                                    range_to_replace.start.copy(),
+                                    BinaryOperation.create(
+                                        BinaryOperation.Operator.MUL,
+                                        count,
+                                        range_to_replace.step.copy()))
                     range_to_replace.replace_with(index_expr)
                     break  # We just substitue one per top-level array
 
